@@ -1,0 +1,14 @@
+//go:build verif
+
+// Contracts for package replication, read by /verif/kvc (contract-based deductive verification).
+// Comment-only; excluded from every build without the `verif` tag.
+package replication
+
+// ---- C16: the applier never switches a real engine (*engine.EngineFacade) out of read-only mode: the
+// SetReadOnly fallbacks are reachable only for engines without the internal bypass methods.
+//@ func (*EngineApplier).applyInReadOnlyMode
+//@   requires e != nil && entry != nil && e.engine != nil
+//@   check[C16] before call .SetReadOnly#1: !typeIs(e.engine, "*engine.EngineFacade")
+//@   check[C16] before call .SetReadOnly#3: !typeIs(e.engine, "*engine.EngineFacade")
+//@   check[C16] before call .SetReadOnly#5: !typeIs(e.engine, "*engine.EngineFacade")
+//@   ensures[C16] true
